@@ -408,7 +408,7 @@ theorem optimize_terminates_moves (c : Nat → Nat → Int) (hsym : ∀ i j, c i
     (fun p q hp hq => improvesMove_improves c p q (hc p q hp hq)) p hnd
 
 /-- non-vacuity of the contract: on the ring metric of four nodes the 2-opt move `[0,2,1,3] → [0,1,2,3]`
-    (gain `4 − 2`… exactly: broken `(0,2),(1,3)` cost 2+2, joined `(0,1),(2,3)` cost 1+1) meets `ImprovesMove` -/
+    (broken `(0,2),(1,3)` cost 2+2, joined `(0,1),(2,3)` cost 1+1: gain 2) meets `ImprovesMove` -/
 def ringC (i j : Nat) : Int := min ((i : Int) - j).natAbs (4 - ((i : Int) - j).natAbs)
 
 example : ImprovesMove ringC [0, 2, 1, 3] [0, 1, 2, 3] :=
